@@ -313,11 +313,43 @@ def nontriv(a):
     return bool(a.size > 1 and (a.max() - a.min()) > 1e-9)
 
 
-def call(out, key0, fn, *args, admissible=True, **kwargs):
+def _flat_arrays(x):
+    if isinstance(x, np.ndarray):
+        return [x] if x.dtype.kind in 'biufc' else []
+    if isinstance(x, (tuple, list)):
+        ret = []
+        for y in x:
+            ret += _flat_arrays(y)
+        return ret
+    return []
+
+
+def call(out, key0, fn, *args, admissible=True, fresh=True, **kwargs):
     """call a numqi function; classify exceptions (DESIGN 3.3). Returns (ok, value)."""
     out.trans()
     try:
-        return True, fn(*args)
+        r0 = fn(*args)
+        # freshness (history: call, the caller modifies what it received, call again): a constructor must name the same object
+        # on every call, so results must not be views of state shared between calls
+        arrs0 = _flat_arrays(r0)
+        if arrs0 and admissible and fresh:
+            snap = [a.copy() for a in arrs0]
+            poisoned = False
+            for a in arrs0:
+                if a.flags.writeable and a.size:
+                    with np.errstate(all='ignore'):
+                        a[...] = a + (1.2345 if a.dtype.kind in 'fc' else 1)
+                    poisoned = True
+            if poisoned:
+                r1 = fn(*args)
+                arrs1 = _flat_arrays(r1)
+                same = len(arrs1) == len(snap) and all(x.shape == y.shape and np.array_equal(x, y, equal_nan=True) for x, y in zip(arrs1, snap))
+                if not same and not getattr(fn, '_c18_random', False):
+                    out.violation(key0 + '/result_shares_state_between_calls',
+                                  'a second call with the same arguments returns a different object after the first result was modified in place by the caller',
+                                  args=[arr_detail(a) for a in args], **kwargs)
+                return True, r1
+        return True, r0
     except AssertionError as e:
         if core.is_precondition_assert(e) and not admissible:
             out.count('rejected_by_precondition')
@@ -1119,7 +1151,7 @@ def run_sixparam(case, out, env):
         for stream in (0, 1):
             out.state()
             with seams.EntropySeam(stream) as seam:
-                ok, r = call(out, key0, lambda: load('sixparam', None, return_bes=True, ignore_warning=True))
+                ok, r = call(out, key0, lambda: load('sixparam', None, return_bes=True, ignore_warning=True), fresh=False)  # random by contract
             if not ok:
                 continue
             if len(seam.hits) != 1:
